@@ -171,7 +171,7 @@ check("C11", "an SSTable reads back exactly what was written", [
 ], [SIMFS, CLOCK, HASH, BLOOM, LOG, TIERA], ["keys > 64 KiB (uint16 length field)", ">2 blocks", "multi-byte damage"])
 
 check("C12", "compaction preserves content; deleted keys stay deleted", [
-    ob("VerifC12_CompactPreservesView", "pkg/compaction", "2-3 real SSTables with symbolic levels and tombstone placement, one compaction cycle, merged view before = after", "2-3 files, 2 keys, levels 0-1", q={"budget_s": 400}),
+    ob("VerifC12_CompactPreservesView", "pkg/compaction", "2-3 real SSTables with symbolic levels and tombstone placement, one compaction cycle, merged view before = after", "2-3 files, 2 keys, levels 0-1, file numbering with or against creation order, values symbolic 1-byte or all empty (budget-capped in quick: see the NOTE line)", q={"budget_s": 400}, t={"budget_s": 1500}),
     ob("VerifC12_CompactionInWorkload", "pkg/engine", "put+flush / delete+flush / triggered compaction / retire-flushed-logs+reopen steps on an engine with a level-0 trigger of 2: after every step and at the end each key reads as its latest write says, also from the compacted files after a reopen with the old logs gone",
        "2..4 steps, writes on 1 of 2 keys, probe over both; database fresh or aged (both keys already in level 2)", "2..5 steps, writes on both keys", q={"budget_s": 500}, t={"budget_s": 1200}),
     ob("VerifC12_RangeCompaction", "pkg/engine", "an older generation of a symbolic subset of 3 keys sits 1 (thorough 1-2) levels down; a newer generation (1-2 puts/deletes) is flushed into one level-0 table; CompactRange over a symbolic key range [lo,hi] (thorough: 1-2 such rounds): every key reads as its latest write says in the running engine and after the logs are retired and the database is reopened on the tables alone",
@@ -184,8 +184,8 @@ check("C13", "a replica applies the primary's log in order, exactly once", [
     ob("VerifC13_ApplyStepInductive", "pkg/replication", "one step of WALBatchApplier.ApplyEntries from an arbitrary cursor with an arbitrary batch and an apply function failing at a symbolic index", "<=3 entries per batch"),
     ob("VerifC13_DeliverySchedules", "pkg/replication", "a real Replica fed stream messages that are arbitrary sub-ranges of the primary log (duplicates, reordering, gaps, overlaps), optionally compressed, with one transient apply failure: applied history is always a prefix of the log, reported sequence monotone and never ahead, gaps answered by a retransmission request",
        "log of <=2 operations, <=2 messages, codecs NONE/ZSTD, failure at call 0..2", "log of <=3 operations, <=3 messages, codecs NONE/ZSTD/SNAPPY", t={"budget_s": 900}),
-    ob("VerifC13_ReconnectResumes", "pkg/replication", "the replica's own state handlers (connecting, streaming, waiting, fsync, acknowledging, error/back-off) driven tick by tick against a scripted primary whose stream delivers, stalls or is reset: applied history always a prefix in order, nothing twice; reported sequence monotone and never ahead; every new stream asks for the entry after the last applied",
-       "log of 2 entries, 3 stream scripts (DD, DRD, RDD), 8 ticks, every timer/receive interleaving at preemption bound 0 (322 k schedules)", "log of 3 entries, 10 scripts, 10 ticks (budget-capped)", q={"preempt": 0, "budget_s": 500}, t={"preempt": 0, "budget_s": 1200}, no_validate=True),
+    ob("VerifC13_ReconnectResumes", "pkg/replication", "the replica's own state handlers (connecting, streaming, waiting, fsync, acknowledging, error/back-off) driven tick by tick against a scripted primary whose stream delivers, stalls or is reset, with one transient failure of the local apply at a symbolic call: applied history always a prefix in order, nothing twice; reported sequence monotone and never ahead; every new stream asks for the entry after the last applied",
+       "log of 2 entries, 3 stream scripts (DD, DRD, RDD), apply failure at call 0..2 (0 = never), 8 ticks, every timer/receive interleaving at preemption bound 0 (967 k schedules)", "log of 3 entries, 10 scripts, 10 ticks (budget-capped)", q={"preempt": 0, "budget_s": 500}, t={"preempt": 0, "budget_s": 1200}, no_validate=True),
     ob("VerifC13_SerializeRoundTrip", "pkg/replication", "Deserialize(Serialize(e)) = e for put/delete/merge with key/value lengths 0-2 and arbitrary sequence numbers; a payload cut at any point is rejected or denotes the same operation",
        "key/value lengths 0..2, every cut position"),
 ], [LOG, TIERA, "compression codecs: opaque pair Decompress(Compress(x)) = x, anything without the codec's frame magic is invalid"], ["codec internals", "gRPC framing", "the replica's loop timing (sleep, back-off durations); gRPC status and metadata are engine stubs carrying code and message only; data races inside the replica's receive goroutines (observed, not reproducible natively with an instant fake stream, not part of C13)"])
